@@ -13,6 +13,7 @@ import math
 import random
 
 from rv import gen
+from rv.monitors import identity
 from rv.props import _c06_monitor as mon
 
 ID = "C11"
@@ -363,7 +364,26 @@ def _iterate_bins(obs, lena, res, idxs, cells, E, plain2d):
         it = lena.structures.IterateBins(create_edges_str=_edges_str)
     else:
         it = lena.structures.IterateBins()
-    out = list(it.run(iter([7, res, other, "s"])))
+    # a streaming consumer that updates every received cell context in place (as a downstream
+    # UpdateContext / MakeFilename would) before asking for the next cell: the snapshot taken
+    # at the moment of the yield is what the oracles below judge
+    out, at_yield, yielded_ctxs = [], [], []
+    for y in it.run(iter([7, res, other, "s"])):
+        out.append(y)
+        at_yield.append(copy.deepcopy(y[1]) if gen.has_ctx(y) else None)
+        if gen.has_ctx(y) and y is not other:
+            yielded_ctxs.append(y[1])
+            for sub in ("bins", "bin"):
+                if isinstance(y[1].get(sub), dict):
+                    y[1][sub]["touched-by-consumer"] = len(out)
+                    obs.count("iterate_bins_contexts_mutated_by_consumer")
+    shared = []
+    for a in range(len(yielded_ctxs)):
+        for b in range(a):
+            shared += identity.shared(yielded_ctxs[a], yielded_ctxs[b])
+    obs.check(not shared, "iterate-bins-cells-share-context-objects",
+              "the contexts IterateBins yielded for different cells of one histogram share %d "
+              "mutable object(s), e.g. %r" % (len(shared), shared[:1]))
     ok = len(out) == len(cells) + 3 and out[0] == 7 and out[-1] == "s" and out[-2] is other
     obs.check(ok, "iterate-bins-number-of-values",
               "IterateBins yielded %d values for %d cells + 3 unselected values"
@@ -371,11 +391,11 @@ def _iterate_bins(obs, lena, res, idxs, cells, E, plain2d):
     if not ok:
         return
     seen = set()
-    for y in out[1:-2]:
+    for y, c_at_yield in zip(out[1:-2], at_yield[1:-2]):
         if not (gen.has_ctx(y)):
             obs.fail("iterate-bins-value-shape", "yielded %r" % (y,))
             return
-        d, c = y
+        d, c = y[0], c_at_yield
         js = [j for j, cell in enumerate(cells) if gen.data_of(cell) is d]
         obs.count("iterate_bins_cells_compared")
         if len(js) != 1 or js[0] in seen:
